@@ -4,7 +4,7 @@ import sys
 import time
 import traceback
 
-from . import common, facts, interp, wire, rules_wire, rules_header
+from . import common, facts, interp, wire, rules_wire, rules_header, rules_hash, golden, hashrec
 from .common import Report, Facts, ExportError
 
 ASSUME_COMMON = [
@@ -203,7 +203,128 @@ def check_C10(ctx):
             "plus dominance of the check over the value read in both deserializers.")
 
 
-CHECKS = {"C10": check_C10, "C01": check_C01, "C02": check_C02, "C15": check_C15, "C05": check_C05}
+def golden_compare(ctx, sections, prop_rule="GOLDEN"):
+    """Compare the built-in part of the current tree with spec/format_v1_1.json."""
+    rep = ctx.rep
+    u, w, ts, exp = ctx.triples("default", CORPUS)
+    cur = golden.current(u, w, [t for t in ts if t.crate == "epserde"])
+    spec = golden.load()
+    n = 0
+    for sec in sections:
+        sv, cv = spec.get(sec), cur.get(sec)
+        if isinstance(sv, dict):
+            for k, want in sv.items():
+                got = cv.get(k)
+                if isinstance(got, tuple):
+                    got = list(got)
+                ok = got == want
+                rep.oblige(ok)
+                n += 1
+                if not ok:
+                    rep.add(prop_rule, "%s:%s" % (sec, k), "format v1.1 has %s[%s] = %s; the current tree has %s" % (sec, k, want, got))
+            # new built-in impls are not a format change of existing files; removed ones are
+        else:
+            ok = sv == cv or sv == [list(x) if isinstance(x, tuple) else x for x in (cv or [])]
+            rep.oblige(ok)
+            n += 1
+            if not ok:
+                rep.add(prop_rule, sec, "format v1.1 has %s = %s; the current tree has %s" % (sec, sv, cv))
+    rep.count("golden_entries_compared", n)
+    return n
+
+
+def check_C04(ctx):
+    rep = ctx.rep
+    rep.rule("H1", "type/alignment hash recipe of every derived corpus type = recipe computed by the checker from the item definition (copy kind, const values and names, type name, field/variant names in order, field types in order; size, repr strings, threaded/fresh offsets)")
+    rep.rule("H2", "every type/const parameter of the self type is fed into the type hash; every parameter whose values the writer puts on the stream is fed into the alignment hash")
+    rep.rule("H3", "type-hash heads of different type constructors differ")
+    rep.rule("H4", "&[T] and SerIter<T,_> delegate both hashes to Vec<T>, SerType = Vec<T>")
+    rep.rule("G", "check_header compares both hashes with != against the same recipe the writer stored, returns the specific error, before any value is read")
+    rep.rule("GOLDEN", "hash recipes of the built-in impls = spec/format_v1_1.json")
+    u, w, ts, exp = ctx.triples("default", CORPUS)
+    recs = rules_hash.collect(u, rep)
+    rules_hash.rule_H2(u, recs, ts, rep)
+    rules_hash.rule_H3(u, recs, rep)
+    rules_hash.rule_H4(u, recs, rep)
+    nd = rules_hash.rule_H1_derived(u, recs, rep, {"wcorpus": os.path.join(common.VERIF, "witness", "wcorpus", "src", "lib.rs")})
+    rep.floor("hash recipes extracted", len(recs), 180)
+    rep.floor("derived recipes checked against the definition", nd, 60)
+    # header rows 5-6 and dominance
+    sub = Report("C04", ctx.tier)
+    rules_header.rules_G(u, sub)
+    rules_header.rules_G4(u, sub)
+    for f in sub.findings:
+        if any(x in f.key for x in ("hash", "read#4", "read#5", "hashes", "unchecked", "value-before-check", "order", "ANCHOR", "paths")) or f.rule in ("G4", "ANCHOR"):
+            rep.findings.append(f)
+    rep.obligations += sub.obligations
+    rep.discharged += sub.discharged
+    golden_compare(ctx, ("type_hash", "align_hash"))
+    return ("Hash recipes (ordered feeds into the hasher) of every TypeHash/AlignHash impl extracted by abstract interpretation; conformance of "
+            "derived recipes to the item definition, dependence on every parameter, distinct heads, documented aliases, golden recipes of the "
+            "built-ins, and the header comparison of both hashes. Different recipes give different hashes up to an xxh3-64 collision (not decided).")
+
+
+def check_C06(ctx):
+    rep = ctx.rep
+    rep.rule("GOLDEN", "writer wire terms (order, widths, tag constants, padding points, leaf encoders), hash recipes, header atoms and constants of the built-in impls = spec/format_v1_1.json (format v1.1 as read against the README)")
+    rep.rule("G6", "MAGIC, MAGIC_REV, VERSION = published values")
+    rep.rule("DERIVED", "derived writers: fields in declaration order, usize variant index in declaration order, zero-copy = align + memory image (corpus)")
+    n = golden_compare(ctx, ("writers", "readers_leaf", "type_hash", "align_hash", "header", "consts"))
+    rep.floor("golden entries compared", n, 200)
+    u, w, ts, exp = ctx.triples("default", CORPUS)
+    rules_header.rules_G6(u, rep)
+    # derived writers against the definition
+    nd = 0
+    for t in ts:
+        if t.crate == "epserde" or t.ser_impl is None:
+            continue
+        st = t.ser_impl.self_ty
+        if st[0] != "adt" or st[1] not in u.adts:
+            continue
+        c, aj = u.adts[st[1]]
+        for p in t.paths.get("ser", []) or []:
+            if p.outcome != "ok":
+                continue
+            vsel = [s_ for s_ in p.selectors if s_[0] == "variant" and s_[1] == ("self",)]
+            atoms = p.atoms
+            if len(atoms) == 2 and atoms[0].k == "A" and atoms[1].k == "Z":
+                ok = atoms[1].ty == st and atoms[1].n == interp.C(1)
+                rep.oblige(ok)
+                nd += 1
+                if not ok:
+                    rep.add("DERIVED", t.key + ":zero", "derived zero-copy writer of `%s` does not emit align + one memory image of Self: %s" % (t.key, p.show()), t.loc)
+                continue
+            if aj["kind"] == "enum":
+                if not vsel:
+                    continue
+                vi = vsel[0][3]
+                var = [v for v in aj["variants"] if v["index"] == vi][0]
+                ok = bool(atoms) and atoms[0].k == "F" and atoms[0].ty == ("prim", "usize") and rules_wire.const_of(atoms[0].src) == vi
+                want = [c.ty(f["ty"]) for f in var["fields"]]
+                got = [a.ty for a in atoms[1:]]
+                ok = ok and got == want and all(a.k == "F" for a in atoms[1:])
+            else:
+                var = aj["variants"][0]
+                want = [c.ty(f["ty"]) for f in var["fields"]]
+                got = [a.ty for a in atoms]
+                ok = got == want and all(a.k == "F" for a in atoms)
+                # each atom comes from the field of the same index
+                for i, a in enumerate(atoms):
+                    fs = rules_wire.field_of_src(a.src)
+                    if fs is not None and fs[1] != i:
+                        ok = False
+            rep.oblige(ok)
+            nd += 1
+            if not ok:
+                rep.add("DERIVED", "%s:%s" % (t.key, p.cond_show()), "derived writer of `%s` emits [%s]; declaration order requires %s%s"
+                        % (t.key, p.gshow(), "usize variant index then " if aj["kind"] == "enum" else "", [facts.ty_str(x) for x in want]), t.loc)
+    rep.floor("derived writer paths checked against declaration order", nd, 50)
+    return ("Format v1.1 as a golden set of extracted terms: every built-in writer term (incl. tag constants and native-endian leaf encoders), hash recipe, "
+            "header atom and constant is compared with spec/format_v1_1.json; derived writers are compared with the declaration. Together with C01/C02 "
+            "(readers equal writers) this is the static content of 'files of this format version stay readable'. Byte-for-byte comparison with an independent encoder over values is not decided.")
+
+
+CHECKS = {"C04": check_C04, "C06": check_C06, "C10": check_C10, "C01": check_C01, "C02": check_C02, "C15": check_C15, "C05": check_C05}
 
 
 def main(argv):
